@@ -8,6 +8,7 @@ import (
 	"go/types"
 	"math"
 	"strconv"
+	"strings"
 
 	"golang.org/x/tools/go/ssa"
 )
@@ -117,6 +118,26 @@ func init() {
 			panic(unsupported{"strings.Count with empty separator on symbolic string"})
 		}
 		return in.intConst(int64(in.countSub(s, sub)))
+	}
+	// strings.IndexRune(s, r) with an ASCII-only concrete s: position of the byte equal to r
+	externals["strings.IndexRune"] = func(in *Interp, fr *frame, args []value) value {
+		s, ok := args[0].(string)
+		r := args[1].(*Term)
+		if !ok || r.IsConst() {
+			if ok && r.IsConst() {
+				return in.intConst(int64(strings.IndexRune(s, rune(r.SVal()))))
+			}
+			panic(unsupported{"strings.IndexRune on symbolic string"})
+		}
+		for i := 0; i < len(s); i++ {
+			if s[i] >= 0x80 {
+				panic(unsupported{"strings.IndexRune: symbolic rune in non-ASCII string"})
+			}
+			if in.branch(in.tb.Eq(r, in.tb.BV(SBV32, uint64(s[i])))) {
+				return in.intConst(int64(i))
+			}
+		}
+		return in.intConst(-1)
 	}
 	externals["internal/bytealg.MakeNoZero"] = func(in *Interp, fr *frame, args []value) value {
 		n := in.toInt(args[0], "MakeNoZero")
@@ -297,8 +318,26 @@ func stubParseFloat(in *Interp, fr *frame, args []value) value {
 	if n == 0 {
 		return tuple{in.tb.Float(0), nerr("")}
 	}
-	okT := in.tb.UF(fmt.Sprintf("pfok%d", n), SBool, bs...)
+	okT := in.pfOK(bs)
 	val := in.tb.UF(fmt.Sprintf("pf%d", n), SFloat, bs...)
+	if in.branch(okT) {
+		return tuple{val, nilError()}
+	}
+	return tuple{in.tb.Float(0), nerr(args[0])}
+}
+
+// pfOK returns the acceptance predicate of ParseFloat for a token of symbolic bytes and
+// asserts the library facts about it (once per token and path).
+func (in *Interp) pfOK(bs []*Term) *Term {
+	n := len(bs)
+	okT := in.tb.UF(fmt.Sprintf("pfok%d", n), SBool, bs...)
+	if in.path.pfSeen == nil {
+		in.path.pfSeen = map[*Term]bool{}
+	}
+	if in.path.pfSeen[okT] {
+		return okT
+	}
+	in.path.pfSeen[okT] = true
 	// library facts: a token containing a blank, a colon or a quote is never accepted
 	bad := in.tb.False
 	for _, b := range bs {
@@ -307,10 +346,75 @@ func stubParseFloat(in *Interp, fr *frame, args []value) value {
 		}
 	}
 	in.assume(in.tb.Or(in.tb.Not(bad), in.tb.Not(okT)))
-	if in.branch(okT) {
-		return tuple{val, nilError()}
+	// a byte outside the alphabet of Go floating-point literals => rejected;
+	// a token of decimal digits only => accepted
+	alpha := "09++--..__eExXpPafAFiInNtTyY"
+	outside, digits := in.tb.False, in.tb.True
+	for _, b := range bs {
+		inA := in.tb.False
+		for i := 0; i+1 < len(alpha); i += 2 {
+			lo, hi := in.tb.BV(SBV8, uint64(alpha[i])), in.tb.BV(SBV8, uint64(alpha[i+1]))
+			inA = in.tb.Or(inA, in.tb.And(in.tb.BVULe(lo, b), in.tb.BVULe(b, hi)))
+		}
+		outside = in.tb.Or(outside, in.tb.Not(inA))
+		digits = in.tb.And(digits, in.tb.And(in.tb.BVULe(in.tb.BV(SBV8, '0'), b), in.tb.BVULe(b, in.tb.BV(SBV8, '9'))))
 	}
-	return tuple{in.tb.Float(0), nerr(args[0])}
+	in.assume(in.tb.Or(in.tb.Not(outside), in.tb.Not(okT)))
+	_ = digits
+	// a plain decimal [+-]digits[.digits] (at least one digit) => accepted
+	simple := in.simpleDecimal(bs)
+	in.assume(in.tb.Or(in.tb.Not(simple), okT))
+	in.path.pfTokens = append(in.path.pfTokens, in.tb.Or(in.tb.Not(okT), simple))
+	return okT
+}
+
+func (in *Interp) simpleDecimal(bs []*Term) *Term {
+	tb := in.tb
+	isDigit := func(b *Term) *Term { return tb.And(tb.BVULe(tb.BV(SBV8, '0'), b), tb.BVULe(b, tb.BV(SBV8, '9'))) }
+	is := func(b *Term, c byte) *Term { return tb.Eq(b, tb.BV(SBV8, uint64(c))) }
+	res := tb.False
+	for sgn := 0; sgn <= 1 && sgn < len(bs); sgn++ {
+		rest := bs[sgn:]
+		k := len(rest)
+		for dot := -1; dot < k; dot++ {
+			if dot >= 0 && k < 2 {
+				continue
+			}
+			pat := tb.True
+			if sgn == 1 {
+				pat = tb.Or(is(bs[0], '+'), is(bs[0], '-'))
+			}
+			for i, b := range rest {
+				if i == dot {
+					pat = tb.And(pat, is(b, '.'))
+				} else {
+					pat = tb.And(pat, isDigit(b))
+				}
+			}
+			res = tb.Or(res, pat)
+		}
+	}
+	return res
+}
+
+func init() {
+	// verifPFOK(s): "ParseFloat accepts s" as a term, without forking
+	shims["verifPFOK"] = func(in *Interp, fr *frame, args []value) value {
+		if s, ok := args[0].(string); ok {
+			_, err := strconv.ParseFloat(s, 64)
+			return in.tb.Bool(err == nil)
+		}
+		r := in.ropeOf(args[0])
+		r.byteLevel("verifPFOK")
+		if len(r.atoms) == 0 {
+			return in.tb.False
+		}
+		bs := make([]*Term, len(r.atoms))
+		for i, a := range r.atoms {
+			bs[i] = a.t
+		}
+		return in.pfOK(bs)
+	}
 }
 
 func (in *Interp) callNative(nf *nativeFunc, args []value) value { return nf.fn(in, args) }
